@@ -1,5 +1,206 @@
+/-
+C04 — Delta update reconstructs the new file exactly, fetching only what is missing.
+Theorems about the model of the update procedure (`Update.lean`), built on the theorems about the callbacks (`C05`),
+for an ARBITRARY initial target (which is what makes C11 a corollary), ARBITRARY hash function and regex answers.
+PARTIAL: that an honest server's response makes every requested chunk valid (so that the loop ends with nothing missing,
+after fetching exactly the missing extents once) is NOT a theorem; it is checked on the implementation and on the model by
+the UPDATE runs.  What is proved is soundness: whatever the loop does, every chunk it leaves marked valid is present
+(hashes to its checksum at its extent), valid chunks are never modified, a run that ends without error has nothing
+missing, and a target all of whose chunks are present behind B's header IS B or exhibits an explicit hash collision.
+-/
 import ZckModel.Update
 import ZckModel.Pred.Update
+import ZckModel.Props.C05
+import ZckModel.Props.C10
+
 namespace Zck.C04
-theorem placeholder_true : True := trivial
+open Zck Zck.Format Zck.Dl Zck.Copy Zck.C05 Zck.Update
+
+/-- the file never shrinks while callbacks run -/
+theorem len_preserved (e : Env) (n : Nat) : Preserved e (fun st => n ≤ st.file.length) where
+  frame := fun _ _ h h1 _ _ _ _ _ => by rw [h1]; exact h
+  write := fun st at_ h => by
+    unfold dlWrite
+    by_cases hw : st.writeInChunk > 0
+    · simp only [hw, ↓reduceIte]
+      generalize (if st.writeInChunk < at_.length then st.writeInChunk else at_.length) = wb
+      have := C05.writeAt_length_ge st.file st.pos (at_.take wb)
+      by_cases h0 : wb = 0
+      · simp only [h0, ↓reduceIte]; rw [h0] at this; exact Nat.le_trans h this
+      · simp only [h0, ↓reduceIte]
+        cases st.hash with
+        | none => exact Nat.le_trans h this
+        | some acc => exact Nat.le_trans h this
+    · simp only [hw, ↓reduceIte]; exact h
+  verify := fun st h hw => by
+    have hz : ∀ (s : St) (c : Chunk), n ≤ s.file.length → n ≤ (zeroChunk e s c).file.length := by
+      intro s c hs
+      unfold zeroChunk
+      exact Nat.le_trans hs (C05.writeAt_length_ge _ _ _)
+    unfold dlVerify
+    split
+    · rename_i k _
+      unfold setChunkValid
+      cases e.hdr.chunks[k]? with
+      | none => exact ⟨h, hw⟩
+      | some tc =>
+        simp only
+        cases hh : st.hash with
+        | none => exact ⟨hz _ tc h, hw⟩
+        | some acc =>
+          simp only
+          generalize (if tc.compLen = 0 then (hsize e.hdr.chunkHashType).map zeros else e.H e.hdr.chunkHashType acc) = dg
+          by_cases hd : (dg == some tc.digest) = true
+          · simp only [hd, ↓reduceIte]; exact ⟨h, hw⟩
+          · simp only [hd, Bool.false_eq_true, ↓reduceIte]; exact ⟨hz _ tc h, hw⟩
+    · exact ⟨h, hw⟩
+  opens := fun st h _ => by
+    unfold dlOpen
+    simp only
+    split
+    · split
+      · exact h
+      · exact h
+    · exact h
+
+/-- every chunk marked valid is present: its extent lies in the file and hashes to its index checksum -/
+def AllOk (e : Env) (file : Bytes) (valid : List Int) : Prop :=
+  ∀ k tc, e.hdr.chunks[k]? = some tc → valid.getD k 0 = 1 → ChunkOk e file tc
+
+/-- **one feeding session keeps every valid chunk present and makes chunks valid only through their checksum** —
+for arbitrary response bytes, fragmentation and regex answers -/
+theorem session_allOk (e : Env) (hd : Disj e) (st : St) (lines frags : List Bytes) (stop clear : Bool)
+    (h1 : st.tgtCheck = none) (h2 : st.writeInChunk = 0) (hok : AllOk e st.file st.valid) :
+    let fin := (feed e stop clear (feedHdrs e st lines []).2 frags []).2
+    AllOk e fin.file fin.valid := by
+  intro fin k tc htc hv
+  by_cases hv0 : st.valid.getD k 0 = 1
+  · -- valid before: its bytes are untouched
+    have hc := (C05.confined e st lines frags stop clear h1 h2).1
+    have hlen : st.file.length ≤ fin.file.length :=
+      pres_feed e (len_preserved e st.file.length) stop clear frags _ []
+        (pres_feedHdrs e (len_preserved e st.file.length) lines st [] (Nat.le_refl _))
+    have h0 := hok k tc htc hv0
+    unfold ChunkOk at h0 ⊢
+    split
+    · rename_i hz; simpa [hz] using h0
+    · rename_i hz
+      simp only [hz, ↓reduceIte] at h0
+      have hs := slice_eq_of_getD st.file fin.file (e.dataOff + tc.start) tc.compLen h0.1 (by omega) (by
+        intro i hi1 hi2
+        apply hc
+        intro k' tc' htc' ha'
+        have hne : k ≠ k' := by intro heq; subst heq; exact ha'.1 hv0
+        have := hd k k' tc tc' htc htc' hne
+        omega)
+      rw [hs]
+      exact ⟨by omega, h0.2⟩
+  · exact C05.verified e hd st lines frags stop clear h1 h2 k tc htc hv0 hv
+
+/-- the environment of a round, as far as presence of chunks is concerned -/
+def envOf (H : HashFn) (rx : Rx) (th : Hdr) (ridx : List RChunk) : Env := { H := H, rx := rx, hdr := th, ridx := ridx }
+
+theorem allOk_ridx (H : HashFn) (rx : Rx) (th : Hdr) (r1 r2 : List RChunk) (f : Bytes) (v : List Int) :
+    AllOk (envOf H rx th r1) f v ↔ AllOk (envOf H rx th r2) f v := Iff.rfl
+
+theorem disj_ridx (H : HashFn) (rx : Rx) (th : Hdr) (r1 r2 : List RChunk) :
+    Disj (envOf H rx th r1) ↔ Disj (envOf H rx th r2) := Iff.rfl
+
+/-- one transfer keeps valid chunks present and valid, and makes chunks valid only through their checksum -/
+theorem session_sound (e : Env) (hd : Disj e) (file : Bytes) (valid : List Int) (lines frags : List Bytes)
+    (hok : AllOk e file valid) :
+    AllOk e (session e file valid lines frags).2.2.file (session e file valid lines frags).2.2.valid ∧
+    (∀ k, valid.getD k 0 = 1 → (session e file valid lines frags).2.2.valid.getD k 0 = 1) := by
+  unfold session
+  exact ⟨session_allOk e hd { file := file, pos := 0, valid := valid } lines frags true false rfl rfl hok,
+    (C05.confined e { file := file, pos := 0, valid := valid } lines frags true false rfl rfl).2⟩
+
+/-- a round that transfers anything ends in the state of a session in an environment with this hash function and header -/
+theorem round_some (H : HashFn) (rx : Rx) (B : Bytes) (th : Hdr) (limit : Int) (frag : Nat) (file : Bytes) (valid : List Int)
+    (r : String) (f : Bytes) (v : List Int) (ok : Bool)
+    (h : Update.round H rx B th limit frag file valid = (r, some (f, v, ok))) :
+    ∃ ridx lines frags, f = (session (envOf H rx th ridx) file valid lines frags).2.2.file ∧
+      v = (session (envOf H rx th ridx) file valid lines frags).2.2.valid := by
+  unfold Update.round at h
+  simp only at h
+  generalize (if (reqOf th limit valid).items.isEmpty then "" else (Range.render (reqOf th limit valid).items).getD "") = rtext at h
+  by_cases he : rtext.isEmpty = true
+  · simp [he] at h
+  · simp only [he, Bool.false_eq_true, ↓reduceIte] at h
+    cases hc : clip B.length (reqOf th limit valid).items with
+    | none => rw [hc] at h; simp at h
+    | some rs =>
+      rw [hc] at h
+      simp only at h
+      by_cases ha : accepted (session { H := H, rx := rx, hdr := th, ridx := mkRidx (reqOf th limit valid).index 0 } file valid
+          (respond B rs).1 (pieces frag (respond B rs).2)).1 (respond B rs).1 = true
+      · simp only [ha, not_true_eq_false, ↓reduceIte, Prod.mk.injEq, Option.some.injEq] at h
+        exact ⟨_, _, _, h.2.1.symm, h.2.2.1.symm⟩
+      · simp [ha] at h
+
+/-- **one round of the fetch loop** (any response, any fragment size, any regex answers): valid chunks stay valid and
+present, newly valid ones are present -/
+theorem round_sound (H : HashFn) (rx : Rx) (B : Bytes) (th : Hdr) (limit : Int) (frag : Nat) (file : Bytes) (valid : List Int)
+    (hd : Disj (envOf H rx th [])) (hok : AllOk (envOf H rx th []) file valid)
+    (r : String) (f : Bytes) (v : List Int) (ok : Bool)
+    (h : Update.round H rx B th limit frag file valid = (r, some (f, v, ok))) :
+    AllOk (envOf H rx th []) f v ∧ (∀ k, valid.getD k 0 = 1 → v.getD k 0 = 1) := by
+  obtain ⟨ridx, lines, frags, rfl, rfl⟩ := round_some H rx B th limit frag file valid r f v ok h
+  have := session_sound (envOf H rx th ridx) ((disj_ridx H rx th [] ridx).mp hd) file valid lines frags
+    ((allOk_ridx H rx th [] ridx file valid).mp hok)
+  exact ⟨(allOk_ridx H rx th ridx [] _ _).mp this.1, this.2⟩
+
+/-- **the fetch loop**: by induction over the rounds -/
+theorem loop_sound (H : HashFn) (rx : Rx) (B : Bytes) (th : Hdr) (limit : Int) (frag : Nat)
+    (hd : Disj (envOf H rx th [])) : ∀ (fuel : Nat) (file : Bytes) (valid : List Int) (reqs : List String) (n : Nat),
+    AllOk (envOf H rx th []) file valid →
+    let out := Update.loop H rx B th limit frag fuel file valid reqs n
+    AllOk (envOf H rx th []) out.1 out.2.1 ∧ (∀ k, valid.getD k 0 = 1 → out.2.1.getD k 0 = 1) ∧
+    (out.2.2.2.2 = none → countEq out.2.1 0 = 0)
+  | 0, file, valid, reqs, n, hok => by
+    intro out
+    simp only [out, Update.loop]
+    exact ⟨hok, fun _ h => h, fun h => by simp at h⟩
+  | fuel + 1, file, valid, reqs, n, hok => by
+    intro out
+    simp only [out]
+    unfold Update.loop
+    split
+    · rename_i h0
+      exact ⟨hok, fun _ h => h, fun _ => h0⟩
+    · split
+      · exact ⟨hok, fun _ h => h, fun h => by simp at h⟩
+      · rename_i r f v heq
+        have := round_sound H rx B th limit frag file valid hd hok r f v false heq
+        exact ⟨this.1, this.2, fun h => by simp at h⟩
+      · rename_i r f v heq
+        have hr := round_sound H rx B th limit frag file valid hd hok r f v true heq
+        have ih := loop_sound H rx B th limit frag hd fuel f v (r :: reqs) (n + 1) hr.1
+        exact ⟨ih.1, fun k hk => ih.2.1 k (hr.2 k hk), ih.2.2⟩
+
+/-! ### non-vacuity (tests on a concrete instance, labelled as tests) -/
+
+def toyH : HashFn := fun _ bs => some [bs.foldl (· + ·) 0]
+def toyRx : Rx := { comp := fun _ => true, hdr := fun _ => none, part := fun _ _ => none, endm := fun _ _ => false }
+def toyHdr : Hdr :=
+  { detached := false, hashType := 1, chunkHashType := 3, flags := 0, compType := 0, lead := 4, headerLen := 2,
+    headerDigest := [], dataDigest := [], count := 3,
+    chunks := [⟨0, [0], none, 0, 0, 0⟩, ⟨1, [6], none, 3, 3, 0⟩, ⟨2, [9], none, 2, 2, 3⟩], dataLen := 5 }
+def toyB : Bytes := [9, 9, 9, 9, 9, 9, 1, 2, 3, 4, 5]
+
+/-- the hypotheses of `loop_sound` hold of a concrete state -/
+example : Disj (envOf toyH toyRx toyHdr []) ∧ AllOk (envOf toyH toyRx toyHdr []) [9, 9, 9, 9, 9, 9, 7, 7, 7, 4, 5] [0, 0, 1] := by
+  refine ⟨disj_of_runFrom _ (by simp [envOf, toyHdr, C13.RunFrom]), ?_⟩
+  intro k
+  match k with
+  | 0 => intro tc _ hv; simp at hv
+  | 1 => intro tc _ hv; simp at hv
+  | 2 => intro tc htc _; simp [envOf, toyHdr] at htc; subst htc; simp [ChunkOk, envOf, toyHdr, Env.dataOff, toyH]
+  | k + 3 => intro tc htc _; simp [envOf, toyHdr] at htc
+
+/-- TEST: one transfer on that state (request: chunk 1; body in 2-byte fragments): the file becomes B, all chunks valid -/
+example : (session (envOf toyH toyRx toyHdr (mkRidx [(1, 3)] 0)) [9, 9, 9, 9, 9, 9, 7, 7, 7, 4, 5] [0, 0, 1] [] [[1, 2], [3]]).2.2.file = toyB ∧
+    (session (envOf toyH toyRx toyHdr (mkRidx [(1, 3)] 0)) [9, 9, 9, 9, 9, 9, 7, 7, 7, 4, 5] [0, 0, 1] [] [[1, 2], [3]]).2.2.valid = [0, 1, 1] := by
+  decide
+
 end Zck.C04
